@@ -184,10 +184,15 @@ fn run_cli(tokens: &[&str], errno: Option<i32>) -> String {
                 }
                 Err(_) => "ERR slave".into(),
             },
-            ["disc", s] => {
+            ["disc", s] | ["disc", s, _] => {
                 let Some(ss) = parse_fevs(s) else {
                     outs.push("ERR disc".into());
                     continue;
+                };
+                // optional third token: the disconnect future is dropped after that many Pending polls
+                let dbudget: Option<usize> = match op {
+                    [_, _, d] if *d != "-" => d.parse().ok(),
+                    _ => None,
                 };
                 let before = {
                     let mut sh = shared.lock().unwrap();
@@ -195,7 +200,7 @@ fn run_cli(tokens: &[&str], errno: Option<i32>) -> String {
                     sh.shutdowns
                 };
                 let mut fut = Box::pin(ctx.disconnect());
-                let res = match drive(fut.as_mut(), &shared, None, errno) {
+                let res = match drive(fut.as_mut(), &shared, dbudget, errno) {
                     Polled::Done(Ok(())) => "OK".to_string(),
                     Polled::Done(Err(e)) => format!("T:{}", show_kind(e.kind())),
                     _ => "WAIT".into(),
